@@ -1,4 +1,5 @@
-import OpacusLean.Lemmas.AdaClipReal
+import OpacusLean.Lemmas.AdaClipMachine
+import OpacusLean.Model.AdaClipFloat
 /-! # C20 — adaptive clipping follows its update rule and its cost is fully accounted
 
 All statements are about the executable model `OpacusLean/Model/AdaClip.lean` at `R = ℝ`
@@ -6,6 +7,7 @@ All statements are about the executable model `OpacusLean/Model/AdaClip.lean` at
 driver runs against `AdaClipDPOptimizer` and the ghost adaptive engine. -/
 namespace Opacus.C20
 open Opacus.AdaClip
+
 
 /-! ## σ-split (Andrew et al. 2021, Thm 1) -/
 
@@ -29,5 +31,383 @@ theorem sigma_split_defined_iff {σ σb : ℝ} (hσ : 0 < σ) (hb : 0 < σb) :
   rw [splitDefined_iff]; tauto
 
 example : (0 : ℝ) < 1 ∧ (0 : ℝ) < 1 ∧ (1 : ℝ) < 2 * 1 := by norm_num
+
+/-! ## AdaClipDPOptimizer -/
+
+/-- **clip_update_rule** (AdaClipDPOptimizer): a released step on a non-empty batch clips with the
+bound `C` in force before the step, draws the count noise with the configured std, and moves the
+bound to `clamp_[min,max] (C · exp(−η·(b̃ − γ)))`, `b̃ = (#{i | normᵢ + 1e-6 ≤ C} + z) / B`. -/
+theorem clip_update_rule_adaclip (cfg : Ada.Cfg ℝ) (s : Ada.State ℝ) (norms : List ℝ) (z : ℝ)
+    (hne : norms ≠ []) (hn : ∀ n ∈ norms, 0 ≤ n) (heps : 0 < cfg.eps) (hb : cfg.minC < cfg.maxC)
+    (hfresh : Ada.Fresh cfg s) :
+    ∃ o, (Ada.phys cfg s norms z false).2 = .released o ∧
+      o.clipUsed = s.C ∧ (Ada.phys cfg s norms z false).1.C = o.newC ∧
+      o.countStd = cfg.sigmaB ∧ o.gradStd = s.mult * s.C ∧
+      o.newC = max cfg.minC (min cfg.maxC (s.C * Real.exp (-cfg.eta *
+        ((((norms.countP (fun n => decide (n + cfg.eps ≤ s.C)) : ℕ) : ℝ) + z) / (norms.length : ℝ) - cfg.gamma)))) := by
+  have hlen : norms.length ≠ 0 := by simpa using hne
+  have hph := Ada.phys_released cfg s norms z (fun h => hne h.1)
+  refine ⟨_, by rw [hph], ?_, ?_, ?_, ?_, ?_⟩
+  · simp [Ada.release]
+  · rw [hph]; simp [Ada.release]
+  · simp [Ada.release]
+  · simp [Ada.release]
+  · simp [Ada.release, Ada.counters_fresh hfresh, hlen, Ada.clamp_eq hb, geoUpdate_real,
+      Ada.unclippedCount_eq heps hn]
+
+/-- the bound never leaves `[min_clipbound, max_clipbound]` once updated -/
+theorem clip_stays_in_bounds_adaclip (cfg : Ada.Cfg ℝ) (s : Ada.State ℝ) (norms : List ℝ) (z : ℝ)
+    (hne : norms ≠ []) (hb : cfg.minC < cfg.maxC) :
+    cfg.minC ≤ (Ada.phys cfg s norms z false).1.C ∧ (Ada.phys cfg s norms z false).1.C ≤ cfg.maxC := by
+  have hlen : (Ada.counters cfg s norms).1 ≠ 0 := by
+    have : norms.length ≠ 0 := by simpa using hne
+    simp only [Ada.counters]; omega
+  rw [Ada.phys_released cfg s norms z (fun h => hne h.1)]
+  simp only [Ada.release, hlen, if_false, Ada.clamp_eq hb]
+  exact ⟨le_max_left _ _, max_le hb.le (min_le_left _ _)⟩
+
+/-- **raw_count_noninterference** (AdaClipDPOptimizer, two-run relational lemma): two runs whose
+states agree except for the exact counter, on batches of the same size, in which
+`exact count + draw` coincide, expose the same bound, noise stds, noisy count and accounting and
+(unless the step raises) end in the *same* state — whatever the exact counts were. -/
+theorem raw_count_noninterference_adaclip (cfg : Ada.Cfg ℝ) (s₁ s₂ : Ada.State ℝ)
+    (n₁ n₂ : List ℝ) (z₁ z₂ : ℝ) (hs : Ada.AgreeUpToCount s₁ s₂) (hlen : n₁.length = n₂.length)
+    (hnoisy : ((Ada.counters cfg s₁ n₁).2 : ℝ) + z₁ = ((Ada.counters cfg s₂ n₂).2 : ℝ) + z₂) :
+    pub (Ada.phys cfg s₁ n₁ z₁ false).2 = pub (Ada.phys cfg s₂ n₂ z₂ false).2 ∧
+    (¬ (n₁ = [] ∧ cfg.empty = .asCoded) →
+      (Ada.phys cfg s₁ n₁ z₁ false).1 = (Ada.phys cfg s₂ n₂ z₂ false).1) := by
+  obtain ⟨hC, hm, hss, hls, hh⟩ := hs
+  have hnil : n₁ = [] ↔ n₂ = [] := by
+    rw [← List.length_eq_zero_iff, ← List.length_eq_zero_iff, hlen]
+  have hc1 : (Ada.counters cfg s₁ n₁).1 = (Ada.counters cfg s₂ n₂).1 := by
+    simp [Ada.counters, hss, hls, hlen]
+  by_cases he : n₁ = [] ∧ cfg.empty = .asCoded
+  · have he2 : n₂ = [] ∧ cfg.empty = .asCoded := ⟨hnil.mp he.1, he.2⟩
+    exact ⟨by simp [Ada.phys, he, he2, pub], fun h => absurd he h⟩
+  · have he2 : ¬ (n₂ = [] ∧ cfg.empty = .asCoded) := fun h => he ⟨hnil.mpr h.1, h.2⟩
+    rw [Ada.phys_released _ _ _ _ he, Ada.phys_released _ _ _ _ he2]
+    cases s₁; cases s₂
+    simp only at hC hm hss hls hh
+    subst hC hm hss hls hh
+    simp only [Ada.release, pub, hc1, hnoisy]
+    simp
+
+/-- non-vacuity: two different batches (exact counts 1 and 2) with compensating draws -/
+example : ((Ada.counters (R := ℝ) ⟨1, 1, 1/5, 1/2, 1/100, 100, 1/1000000, .asCoded, .asCoded, .asCoded⟩
+      ⟨1, 1, 0, 0, false, []⟩ [1/2, 5]).2 : ℝ) + 1 =
+    ((Ada.counters (R := ℝ) ⟨1, 1, 1/5, 1/2, 1/100, 100, 1/1000000, .asCoded, .asCoded, .asCoded⟩
+      ⟨1, 1, 0, 0, false, []⟩ [1/2, 1/4]).2 : ℝ) + 0 := by
+  rw [Ada.counters_fresh (Or.inl rfl), Ada.counters_fresh (Or.inl rfl)]
+  rw [Ada.unclippedCount_eq (by norm_num) (by intro n hn; simp at hn; rcases hn with rfl | rfl <;> norm_num),
+    Ada.unclippedCount_eq (by norm_num) (by intro n hn; simp at hn; rcases hn with rfl | rfl <;> norm_num)]
+  norm_num [List.countP_cons]
+
+/-- a skipped physical batch keeps two such runs in agreement (the exact counters may differ) -/
+theorem raw_count_noninterference_adaclip_skip (cfg : Ada.Cfg ℝ) (s₁ s₂ : Ada.State ℝ)
+    (n₁ n₂ : List ℝ) (z₁ z₂ : ℝ) (hs : Ada.AgreeUpToCount s₁ s₂) (hlen : n₁.length = n₂.length) :
+    Ada.AgreeUpToCount (Ada.phys cfg s₁ n₁ z₁ true).1 (Ada.phys cfg s₂ n₂ z₂ true).1 ∧
+    pub (Ada.phys cfg s₁ n₁ z₁ true).2 = pub (Ada.phys cfg s₂ n₂ z₂ true).2 := by
+  obtain ⟨hC, hm, hss, hls, hh⟩ := hs
+  have hnil : n₁ = [] ↔ n₂ = [] := by
+    rw [← List.length_eq_zero_iff, ← List.length_eq_zero_iff, hlen]
+  have hc1 : (Ada.counters cfg s₁ n₁).1 = (Ada.counters cfg s₂ n₂).1 := by
+    simp [Ada.counters, hss, hls, hlen]
+  by_cases he : n₁ = [] ∧ cfg.empty = .asCoded
+  · have he2 : n₂ = [] ∧ cfg.empty = .asCoded := ⟨hnil.mp he.1, he.2⟩
+    obtain ⟨h1, h3⟩ := he
+    obtain ⟨h2, _⟩ := he2
+    subst h1 h2
+    simp [Ada.phys, h3, pub, Ada.AgreeUpToCount, hC, hm, hc1, hls, hh]
+  · have he2 : ¬ (n₂ = [] ∧ cfg.empty = .asCoded) := fun h => he ⟨hnil.mpr h.1, h.2⟩
+    simp [Ada.phys, he, he2, pub, Ada.AgreeUpToCount, hC, hm, hc1, hh]
+
+/-! ### accounting (D9) -/
+
+/-- **charged_sigma_le_nominal** (AdaClipDPOptimizer, repaired accounting): along every run from the
+constructor, for every batch / draw / skip sequence, each released step hands the accountant a
+multiplier no larger than (in fact equal to) the nominal σ of the combined release
+`(gradMult⁻² + (2·countStd)⁻²)^(−1/2)`, while the gradient noise uses the inflated multiplier. -/
+theorem charged_sigma_le_nominal_adaclip (cfg : Ada.Cfg ℝ) (C0 : ℝ) (s0 : Ada.State ℝ)
+    (hacct : cfg.acct = .repaired) (hc : Ada.construct cfg C0 = .ok s0) (ops : List (List ℝ × ℝ × Bool)) :
+    AllReleased (fun o => o.recorded ≤ nominalSigma o.gradMult o.countStd ∧ o.recorded = cfg.sigma ∧
+        o.gradMult = sigmaDelta cfg.sigma cfg.sigmaB ∧ o.gradStd = o.gradMult * o.clipUsed)
+      (Ada.run cfg s0 ops).2 := by
+  obtain ⟨_, hσ, hb, hlt, hs0⟩ := Ada.construct_ok hc
+  refine Ada.run_invariant cfg _ (sigmaDelta cfg.sigma cfg.sigmaB) ?_ ops s0 (by rw [hs0])
+  intro s norms z k o hm ho
+  unfold Ada.phys at ho
+  split_ifs at ho
+  injection ho with ho
+  subst ho
+  simp [Ada.release, hacct, hm, nominalSigma_sigmaDelta hσ hb hlt]
+
+/-- as coded the accountant is charged the inflated multiplier: strictly more than the nominal σ of
+the combined release, on every released step of every run (finding D9) -/
+theorem adaclip_charges_inflated (cfg : Ada.Cfg ℝ) (C0 : ℝ) (s0 : Ada.State ℝ)
+    (hacct : cfg.acct = .asCoded) (hc : Ada.construct cfg C0 = .ok s0) (ops : List (List ℝ × ℝ × Bool)) :
+    AllReleased (fun o => nominalSigma o.gradMult o.countStd = cfg.sigma ∧ cfg.sigma < o.recorded)
+      (Ada.run cfg s0 ops).2 := by
+  obtain ⟨_, hσ, hb, hlt, hs0⟩ := Ada.construct_ok hc
+  refine Ada.run_invariant cfg _ (sigmaDelta cfg.sigma cfg.sigmaB) ?_ ops s0 (by rw [hs0])
+  intro s norms z k o hm ho
+  unfold Ada.phys at ho
+  split_ifs at ho
+  injection ho with ho
+  subst ho
+  simpa [Ada.release, hacct, hm, nominalSigma_sigmaDelta hσ hb hlt] using sigma_lt_sigmaDelta hσ hb hlt
+
+/-- **adaclip_charges_inflated_counterexample** (D9): `noise_multiplier = 1`, `unclipped_num_std = 1`,
+one step on the batch with norms `[0.5, 5, 0.9, 3]`: the accountant records `2/√3 ≈ 1.1547 > 1`
+although the release corresponds to σ = 1. -/
+theorem adaclip_charges_inflated_counterexample :
+    ∃ s0 o, Ada.construct (wCfg .asCoded) 1 = .ok s0 ∧
+      (Ada.phys (wCfg .asCoded) s0 [1/2, 5, 9/10, 3] 0 false).2 = .released o ∧
+      o.recorded = 2 / Real.sqrt 3 ∧ 1 < o.recorded ∧ nominalSigma o.gradMult o.countStd = 1 := by
+  refine ⟨_, Ada.outOf _ _ _ _, wCfg_construct _, Ada.phys_released_snd _ _ _ _ (by simp), ?_, ?_, ?_⟩
+  · simp [Ada.outOf, Ada.release, wCfg, sigmaDelta_one_one]
+  · simp only [Ada.outOf, Ada.release, wCfg]
+    exact sigma_lt_sigmaDelta (by norm_num) (by norm_num) (by norm_num)
+  · simp only [Ada.outOf, Ada.release, wCfg]
+    exact nominalSigma_sigmaDelta (by norm_num) (by norm_num) (by norm_num)
+
+/-- the same witness under the repaired accounting records the nominal 1 -/
+theorem adaclip_witness_repaired :
+    ∃ s0 o, Ada.construct (wCfg .repaired) 1 = .ok s0 ∧
+      (Ada.phys (wCfg .repaired) s0 [1/2, 5, 9/10, 3] 0 false).2 = .released o ∧
+      o.recorded = 1 ∧ o.gradMult = 2 / Real.sqrt 3 := by
+  refine ⟨_, Ada.outOf _ _ _ _, wCfg_construct _, Ada.phys_released_snd _ _ _ _ (by simp), ?_, ?_⟩
+  · simp [Ada.outOf, Ada.release, wCfg]
+  · simp [Ada.outOf, Ada.release, sigmaDelta_one_one]
+
+/-- each released step is accounted exactly once; skipped physical batches and errors never are -/
+theorem released_step_accounted_once_adaclip (cfg : Ada.Cfg ℝ) (s : Ada.State ℝ) (norms : List ℝ) (z : ℝ) (k : Bool) :
+    match (Ada.phys cfg s norms z k).2 with
+    | .released o => (Ada.phys cfg s norms z k).1.hist = s.hist ++ [o.recorded]
+    | _ => (Ada.phys cfg s norms z k).1.hist = s.hist := by
+  unfold Ada.phys
+  split_ifs <;> simp [Ada.release]
+
+/-! ### empty batch (D21) -/
+
+/-- **adaclip_empty_batch_counterexample** (D21): as coded, a step on an empty batch raises: nothing
+is released and the accountant's history is unchanged. -/
+theorem adaclip_empty_batch_counterexample (cfg : Ada.Cfg ℝ) (s : Ada.State ℝ) (z : ℝ) (k : Bool)
+    (h : cfg.empty = .asCoded) :
+    (Ada.phys cfg s [] z k).2 = .err .emptyBatch ∧ (Ada.phys cfg s [] z k).1.hist = s.hist ∧
+    (Ada.phys cfg s [] z k).1.C = s.C := by
+  simp [Ada.phys, h]
+
+/-- repaired: the empty step is released (gradient noise `σ_Δ·C`), accounted once, bound unchanged -/
+theorem adaclip_empty_batch_repaired (cfg : Ada.Cfg ℝ) (s : Ada.State ℝ) (z : ℝ)
+    (h : cfg.empty = .repaired) (hfresh : Ada.Fresh cfg s) :
+    ∃ o, (Ada.phys cfg s [] z false).2 = .released o ∧ o.gradStd = s.mult * s.C ∧ o.newC = s.C ∧
+      (Ada.phys cfg s [] z false).1.hist = s.hist ++ [o.recorded] ∧ (Ada.phys cfg s [] z false).1.C = s.C := by
+  have he : ¬ (([] : List ℝ) = [] ∧ cfg.empty = .asCoded) := by rw [h]; simp
+  rw [Ada.phys_released _ _ _ _ he]
+  refine ⟨_, rfl, ?_, ?_, ?_, ?_⟩ <;> simp [Ada.release, Ada.counters_fresh hfresh]
+
+/-! ### virtual steps (physical batches of one logical step) -/
+
+/-- repaired counters: a logical step made of a skipped physical batch followed by the releasing one
+updates the bound exactly as one step on the concatenated batch -/
+theorem clip_update_rule_adaclip_virtual (cfg : Ada.Cfg ℝ) (s : Ada.State ℝ) (n₁ n₂ : List ℝ) (z₁ z : ℝ)
+    (h : cfg.accum = .repaired) (hfresh : s.lastSkipped = false) (hne : cfg.empty = .repaired ∨ (n₁ ≠ [] ∧ n₂ ≠ [])) :
+    pub (Ada.phys cfg (Ada.phys cfg s n₁ z₁ true).1 n₂ z false).2 = pub (Ada.phys cfg s (n₁ ++ n₂) z false).2 ∧
+    (Ada.phys cfg (Ada.phys cfg s n₁ z₁ true).1 n₂ z false).1 = (Ada.phys cfg s (n₁ ++ n₂) z false).1 := by
+  have e1 : ¬ (n₁ = [] ∧ cfg.empty = .asCoded) := by
+    rcases hne with h' | h'
+    · rw [h']; simp
+    · exact fun hh => h'.1 hh.1
+  have e2 : ¬ (n₂ = [] ∧ cfg.empty = .asCoded) := by
+    rcases hne with h' | h'
+    · rw [h']; simp
+    · exact fun hh => h'.2 hh.1
+  have e3 : ¬ (n₁ ++ n₂ = [] ∧ cfg.empty = .asCoded) := by
+    rcases hne with h' | h'
+    · rw [h']; simp
+    · intro hh; simp at hh; exact h'.1 hh.1.1
+  have hs1 : Ada.phys cfg s n₁ z₁ true =
+      ({ s with sampleSize := (Ada.counters cfg s n₁).1, unclipped := (Ada.counters cfg s n₁).2, lastSkipped := true },
+        .skipped (n₁.map (Ada.factor cfg.eps s.C))) := by
+    simp [Ada.phys, e1]
+  rw [hs1, Ada.phys_released _ _ _ _ e2, Ada.phys_released _ _ _ _ e3]
+  cases s
+  simp only at hfresh
+  subst hfresh
+  simp [Ada.release, Ada.counters, h, pub, Ada.unclippedCount, List.countP_append, Nat.cast_add]
+
+/-- **adaclip_virtual_step_counterexample**: as coded (`zero_grad` resets the counters after a
+skipped step) the logical step `[0.5, 0.1, 0.2] (skipped) + [5]` at `C = 1` computes its fraction
+from the last physical batch only: denominator 1 and noisy count 0 instead of 4 and 3. -/
+theorem adaclip_virtual_step_counterexample :
+    ∃ o o', (Ada.phys (wCfg .asCoded) (Ada.phys (wCfg .asCoded) ⟨1, sigmaDelta 1 1, 0, 0, false, []⟩ [1/2, 1/10, 1/5] 0 true).1
+        [5] 0 false).2 = .released o ∧
+      (Ada.phys (wCfg .asCoded) ⟨1, sigmaDelta 1 1, 0, 0, false, []⟩ [1/2, 1/10, 1/5, 5] 0 false).2 = .released o' ∧
+      o.sampleSize = 1 ∧ o.noisy = 0 ∧ o'.sampleSize = 4 ∧ o'.noisy = 3 ∧
+      o.newC = Real.exp (1/10) ∧ o'.newC = Real.exp (-(1/20)) ∧ o.newC ≠ o'.newC := by
+  have hc0 : ∀ l : List ℝ, (∀ n ∈ l, 0 ≤ n) →
+      Ada.unclippedCount (wCfg .asCoded).eps 1 l = l.countP (fun n => decide (n + 1/1000000 ≤ 1)) := by
+    intro l hl
+    rw [Ada.unclippedCount_eq (by norm_num [wCfg]) hl]; rfl
+  have hA : Ada.unclippedCount (wCfg .asCoded).eps 1 [5] = 0 := by
+    rw [hc0 _ (by intro n hn; simp at hn; subst hn; norm_num)]; norm_num [List.countP_cons]
+  have hB : Ada.unclippedCount (wCfg .asCoded).eps 1 [1/2, 1/10, 1/5, 5] = 3 := by
+    rw [hc0 _ (by intro n hn; simp at hn; rcases hn with rfl | rfl | rfl | rfl <;> norm_num)]
+    norm_num [List.countP_cons]
+  have e1 : Real.exp (1/10) ≤ 100 := by
+    have h1 := Real.add_one_le_exp (-(1/10) : ℝ)
+    have h2 : Real.exp (1/10) * Real.exp (-(1/10)) = 1 := by rw [← Real.exp_add]; norm_num
+    have h3 := Real.exp_pos (1/10)
+    nlinarith
+  have e2 : (1 : ℝ) ≤ Real.exp (1/10) := Real.one_le_exp (by norm_num)
+  have e3 : Real.exp (-(1/20)) ≤ 1 := Real.exp_le_one_iff.mpr (by norm_num)
+  have e4 : (1/100 : ℝ) ≤ Real.exp (-(1/20)) := by
+    have := Real.add_one_le_exp (-(1/20) : ℝ); linarith
+  have hne : Real.exp (1/10) ≠ Real.exp (-(1/20)) := by
+    intro h; have := Real.exp_injective h; norm_num at this
+  have hskip : (Ada.phys (wCfg .asCoded) ⟨1, sigmaDelta 1 1, 0, 0, false, []⟩ [1/2, 1/10, 1/5] 0 true).1
+      = ⟨1, sigmaDelta 1 1, 3, (Ada.counters (wCfg .asCoded) ⟨1, sigmaDelta 1 1, 0, 0, false, []⟩ [1/2, 1/10, 1/5]).2, true, []⟩ := by
+    simp [Ada.phys, Ada.counters, wCfg]
+  have hfr : ∀ s : Ada.State ℝ, Ada.Fresh (wCfg .asCoded) s := fun _ => Or.inl rfl
+  have h5 : (Ada.outOf (wCfg .asCoded) (Ada.phys (wCfg .asCoded) ⟨1, sigmaDelta 1 1, 0, 0, false, []⟩ [1/2, 1/10, 1/5] 0 true).1
+      [5] 0).newC = Real.exp (1/10) := by
+    rw [hskip]
+    simp only [Ada.outOf, Ada.release, Ada.counters_fresh (hfr _), hA]
+    simp only [wCfg, Ada.clamp, geoUpdate_real]
+    norm_num
+    rw [if_neg (not_lt.mpr e1), if_neg (not_lt.mpr (by linarith))]
+  have h6 : (Ada.outOf (wCfg .asCoded) ⟨1, sigmaDelta 1 1, 0, 0, false, []⟩ [1/2, 1/10, 1/5, 5] 0).newC
+      = Real.exp (-(1/20)) := by
+    simp only [Ada.outOf, Ada.release, Ada.counters_fresh (hfr _), hB]
+    simp only [wCfg, Ada.clamp, geoUpdate_real]
+    norm_num
+    rw [if_neg (not_lt.mpr (by linarith)), if_neg (not_lt.mpr e4)]
+  refine ⟨Ada.outOf _ _ _ _, Ada.outOf _ _ _ _, Ada.phys_released_snd _ _ _ _ (by simp),
+    Ada.phys_released_snd _ _ _ _ (by simp), ?_, ?_, ?_, ?_, h5, h6, by rw [h5, h6]; exact hne⟩
+  · simp [Ada.outOf, Ada.release, Ada.counters_fresh (hfr _)]
+  · rw [hskip]; simp only [Ada.outOf, Ada.release, Ada.counters_fresh (hfr _), hA]; norm_num
+  · simp [Ada.outOf, Ada.release, Ada.counters_fresh (hfr _)]
+  · simp only [Ada.outOf, Ada.release, Ada.counters_fresh (hfr _), hB]; norm_num
+
+/-! ## ghost-clipping adaptive engine -/
+
+/-- **clip_update_rule** (ghost adaptive engine): the count is taken w.r.t. the bound `C` in force
+*before* the step, the count noise has std `B/20`, the new bound is
+`clamp_[min,max] (C · exp(−η·(b̃ − γ)))`, the gradient-noise multiplier is re-derived from the
+*initial* multiplier (no compounding), and the gradient is rescaled and noised with the *new* bound. -/
+theorem clip_update_rule_ghost (cfg : Ghost.Cfg ℝ) (s : Ghost.State ℝ) (norms : List ℝ) (z : ℝ)
+    (hb : cfg.minC ≤ cfg.maxC) (h10 : 10 * s.sigma0 < (norms.length : ℝ)) :
+    ∃ o, (Ghost.step cfg s norms z).2 = .released o ∧
+      o.newC = max cfg.minC (min cfg.maxC (s.C * Real.exp (-cfg.eta *
+        ((((norms.countP (fun n => decide (n ≤ s.C)) : ℕ) : ℝ) + z) / (norms.length : ℝ) - cfg.gamma)))) ∧
+      (Ghost.step cfg s norms z).1.C = o.newC ∧ o.clipUsed = o.newC ∧
+      o.factors = norms.map (fun n => if n ≤ o.newC then 1 else o.newC / n) ∧
+      o.countStd = (norms.length : ℝ) / 20 ∧
+      o.gradMult = (if 0 < s.sigma0 then sigmaDelta s.sigma0 ((norms.length : ℝ) / 20) else s.sigma0) ∧
+      (Ghost.step cfg s norms z).1.mult = o.gradMult ∧ o.gradStd = o.gradMult * o.newC ∧
+      (Ghost.step cfg s norms z).1.sigma0 = s.sigma0 := by
+  unfold Ghost.step
+  rw [Ghost.release_ok cfg s norms _ h10]
+  refine ⟨_, rfl, ?_, rfl, rfl, ?_, rfl, rfl, rfl, rfl, rfl⟩
+  · simp [Ghost.clamp_eq hb, geoUpdate_real, Ghost.unclippedCount]
+  · simp [Ghost.factor]
+
+/-- the guard `batch_size > 10·σ₀` is exactly definedness of the σ-split for `σ_b = B/20` -/
+theorem ghost_guard_iff_split_defined (σ0 : ℝ) (B : ℕ) (hσ : 0 < σ0) :
+    10 * σ0 < (B : ℝ) ↔ splitDefined σ0 ((B : ℝ) / 20) = true := by
+  rw [splitDefined_iff]
+  constructor
+  · intro h; exact ⟨hσ, by linarith, by linarith⟩
+  · rintro ⟨_, _, h⟩; linarith
+
+/-- **raw_count_noninterference** (ghost adaptive engine): batches of equal size with equal
+`exact count + draw` lead to the same state, bound, noise stds and accounting. -/
+theorem raw_count_noninterference_ghost (cfg : Ghost.Cfg ℝ) (s : Ghost.State ℝ) (n₁ n₂ : List ℝ) (z₁ z₂ : ℝ)
+    (hlen : n₁.length = n₂.length)
+    (hnoisy : ((Ghost.unclippedCount s.C n₁ : ℕ) : ℝ) + z₁ = ((Ghost.unclippedCount s.C n₂ : ℕ) : ℝ) + z₂) :
+    (Ghost.step cfg s n₁ z₁).1 = (Ghost.step cfg s n₂ z₂).1 ∧
+    pub (Ghost.step cfg s n₁ z₁).2 = pub (Ghost.step cfg s n₂ z₂).2 := by
+  unfold Ghost.step
+  rw [hnoisy]
+  by_cases h10 : 10 * s.sigma0 < (n₁.length : ℝ)
+  · rw [Ghost.release_ok cfg s n₁ _ h10, Ghost.release_ok cfg s n₂ _ (by rw [← hlen]; exact h10)]
+    simp [pub, hlen]
+  · rw [Ghost.release_err cfg s n₁ _ h10, Ghost.release_err cfg s n₂ _ (by rw [← hlen]; exact h10)]
+    simp [pub]
+
+/-- **charged_sigma_le_nominal** (ghost adaptive engine, repaired accounting): along every run from
+`make_private` with σ₀ > 0, whatever the batch sizes (σ_b = B/20 changes from step to step), each
+released step hands the accountant a multiplier no larger than (equal to) the nominal σ of the
+combined release. -/
+theorem charged_sigma_le_nominal_ghost (cfg : Ghost.Cfg ℝ) (σ0 C0 : ℝ) (hσ : 0 < σ0)
+    (hacct : cfg.acct = .repaired) (ops : List (List ℝ × ℝ)) :
+    AllReleased (fun o => o.recorded ≤ nominalSigma o.gradMult o.countStd ∧ o.recorded = σ0)
+      (Ghost.run cfg (Ghost.init σ0 C0) ops).2 := by
+  refine Ghost.run_invariant cfg _ σ0 ?_ ops _ rfl
+  intro s norms z o hs ho
+  obtain ⟨h10, hg, hc, hr⟩ := Ghost.step_released_inv ho
+  rw [hs] at h10 hg hr
+  rw [hacct] at hr
+  rw [if_pos hσ] at hg
+  have hb : 0 < (norms.length : ℝ) / 20 := by linarith
+  rw [hr, hg, hc, nominalSigma_sigmaDelta hσ hb (by linarith)]
+  exact ⟨le_refl _, rfl⟩
+
+/-- as coded: strictly over-charged on every released step of every run (finding D9, ghost) -/
+theorem ghost_charges_inflated (cfg : Ghost.Cfg ℝ) (σ0 C0 : ℝ) (hσ : 0 < σ0)
+    (hacct : cfg.acct = .asCoded) (ops : List (List ℝ × ℝ)) :
+    AllReleased (fun o => nominalSigma o.gradMult o.countStd = σ0 ∧ σ0 < o.recorded)
+      (Ghost.run cfg (Ghost.init σ0 C0) ops).2 := by
+  refine Ghost.run_invariant cfg _ σ0 ?_ ops _ rfl
+  intro s norms z o hs ho
+  obtain ⟨h10, hg, hc, hr⟩ := Ghost.step_released_inv ho
+  rw [hs] at h10 hg hr
+  rw [hacct] at hr
+  rw [if_pos hσ] at hg
+  have hb : 0 < (norms.length : ℝ) / 20 := by linarith
+  rw [hr, hg, hc, nominalSigma_sigmaDelta hσ hb (by linarith)]
+  exact ⟨rfl, sigma_lt_sigmaDelta hσ hb (by linarith)⟩
+
+/-- **ghost_charges_inflated_counterexample** (D9): σ₀ = 1, one batch of 32 samples (σ_b = 1.6):
+the accountant records `16/√231 ≈ 1.0527 > 1`. -/
+theorem ghost_charges_inflated_counterexample (norms : List ℝ) (hB : norms.length = 32) (z C0 : ℝ) :
+    ∃ o, (Ghost.step ⟨1/5, 1/2, 1/100, 100, .asCoded⟩ (Ghost.init 1 C0) norms z).2 = .released o ∧
+      o.recorded = 16 / Real.sqrt 231 ∧ 1 < o.recorded ∧ nominalSigma o.gradMult o.countStd = 1 := by
+  have h10 : 10 * (Ghost.init (1 : ℝ) C0).sigma0 < (norms.length : ℝ) := by simp [Ghost.init, hB]; norm_num
+  have hval : sigmaDelta (1 : ℝ) (32 / 20) = 16 / Real.sqrt 231 := by
+    rw [sigmaDelta_real]
+    have : (1 : ℝ) / (1 * 1) - 1 / (2 * (32 / 20) * (2 * (32 / 20))) = 231 / 256 := by norm_num
+    rw [this, Real.sqrt_div (by norm_num), show (256 : ℝ) = 16 * 16 by norm_num, Real.sqrt_mul_self (by norm_num)]
+    field_simp
+  unfold Ghost.step
+  rw [Ghost.release_ok _ _ _ _ h10]
+  refine ⟨_, rfl, ?_, ?_, ?_⟩
+  · simp [Ghost.init, hB, hval]
+  · simp only [Ghost.init, hB]
+    have := sigma_lt_sigmaDelta (σ := 1) (σb := 32 / 20) (by norm_num) (by norm_num) (by norm_num)
+    simpa using this
+  · simp only [Ghost.init, hB]
+    have := nominalSigma_sigmaDelta (σ := 1) (σb := 32 / 20) (by norm_num) (by norm_num) (by norm_num)
+    simpa using this
+
+/-- each released ghost step is accounted exactly once; a refused batch never is -/
+theorem released_step_accounted_once_ghost (cfg : Ghost.Cfg ℝ) (s : Ghost.State ℝ) (norms : List ℝ) (z : ℝ) :
+    match (Ghost.step cfg s norms z).2 with
+    | .released o => (Ghost.step cfg s norms z).1.hist = s.hist ++ [o.recorded]
+    | _ => (Ghost.step cfg s norms z).1.hist = s.hist := by
+  unfold Ghost.step
+  by_cases h10 : 10 * s.sigma0 < (norms.length : ℝ)
+  · rw [Ghost.release_ok cfg s norms _ h10]
+  · rw [Ghost.release_err cfg s norms _ h10]
+
+/-! ## the witnesses in binary64 (what the driver computes and the harness replays on the real code) -/
+
+/-- `Float` instance, σ = 1, σ_b = 1: the multiplier written to `optimizer.noise_multiplier` (and, as
+coded, recorded by the accountant) is `0x3FF279A74590331D = 1.1547005383792517`; Python's `**`
+gives the neighbouring double `1.1547005383792515`. -/
+theorem adaclip_float_witness :
+    (sigmaDelta (1.0 : Float) 1.0).toBits = 0x3FF279A74590331D ∧
+    (sigmaDelta (1.0 : Float) (Float.ofNat 32 / 20.0)).toBits = 0x3FF0D7F3C53851C3 := by
+  decide +kernel
 
 end Opacus.C20
